@@ -1,7 +1,9 @@
 (* Correspondence for C06: the model (exact, Q with Qred after every operation) recomputes the
    SQUARED relative reconstruction error of the iterate a value was reported for and compares it
    with (reported value)^2;  direct calls of error_calc are compared branch by branch;  the loop
-   skeleton is compared with the implementation on the observable projection of its trace. *)
+   skeleton is compared with the implementation on the observable projection of its trace;  PARAFAC2's
+   slice-wise shortcut (both forms of B_i^T X_i) and the residual from scratch are evaluated from the returned
+   (weights, (A, B, C), projections) and must coincide exactly. *)
 From Coq Require Import List Arith ZArith QArith Qabs Bool.
 From TLV Require Import Base.Shape Base.PyList Base.Tensor Base.BigSum Base.Ops Model.Errors Corr.Common.
 Import ListNotations.
@@ -33,6 +35,11 @@ Definition rel_close (p : F * F) (rep : F) : bool :=
   let num := toQ (fst p) in let den := toQ (snd p) in
   if Qle_bool den 0 then false else qclose atol rtol (Qred (num / den)) (toQ (fmul Op rep rep)).
 
+(* the shortcuts take sqrt(abs(.)): the model value may be negative (HOOI under rounding) *)
+Definition rel_close_abs (p : F * F) (rep : F) : bool :=
+  let num := toQ (fst p) in let den := toQ (snd p) in
+  if Qle_bool den 0 then false else qclose atol rtol (Qabs (Qred (num / den))) (toQ (fmul Op rep rep)).
+
 (* configuration of a skeleton run; decisions: the iteration at which the callback asks to stop, and
    whether the line search accepts (same answer at every line-search iteration: both are tried) *)
 Record trace_obs := mkObs { n_reports : nat; n_callbacks : nat; broke : bool }.
@@ -41,8 +48,9 @@ Inductive kind :=
 | KCP (X : tensor F) (R : nat) (w : option (list F)) (fs : list (tensor F)) (Sp mask : option (tensor F)) (rep : F)
 | KCPfast (X : tensor F) (R : nat) (w : option (list F)) (fs : list (tensor F)) (n : nat) (rep : F)
 | KErrCalc (X : tensor F) (R : nat) (w : option (list F)) (fs : list (tensor F)) (M : tensor F) (n : nat) (rep : F)
-| KTucker (X G : tensor F) (fs : list (tensor F)) (rep : F)
+| KTucker (X G : tensor F) (fs : list (tensor F)) (mask : option (tensor F)) (rep : F)
 | KHooi (X G : tensor F) (rep : F)
+| KParafac2 (slices : list (tensor F)) (w : option (list F)) (A B C : tensor F) (Ps : list (tensor F)) (rep : F)
 | KDense (X L : tensor F) (rep : F)
 | KCmtf (X : tensor F) (R : nat) (fs : list (tensor F)) (Y : tensor F) (fsY : list (tensor F)) (w wY : option (list F)) (rep : F)
 | KTrace (modes : list nat) (normalize linesearch cb : bool) (n_iter_max : nat) (stop_at : option nat) (accept_ls : bool)
@@ -72,8 +80,11 @@ Definition agree_kind (k : kind) : bool :=
       let t := err_cp_true Op X R w fs None None in
       rel_close f rep && Qeq_bool (toQ (fst f)) (toQ (fst t)) && Qeq_bool (toQ (snd f)) (toQ (snd t))
   | KErrCalc X R w fs M n rep => rel_close (err_shortcut_with Op X R w fs M n) rep
-  | KTucker X G fs rep => rel_close (err_tucker_true Op X G fs) rep
-  | KHooi X G rep => rel_close (err_hooi Op X G) rep
+  | KTucker X G fs mask rep => rel_close (err_explicit Op X (tucker_tensor_entry Op G fs) None mask) rep
+  | KHooi X G rep => rel_close_abs (err_hooi Op X G) rep
+  | KParafac2 slices w A B C Ps rep =>
+      let '(f1, f2, t, nx) := p2_all Op slices w A B C Ps in
+      rel_close (t, nx) rep && Qeq_bool (toQ f1) (toQ t) && Qeq_bool (toQ f2) (toQ t)
   | KDense X L rep => rel_close (err_dense Op X L) rep
   | KCmtf X R fs Y fsY w wY rep =>
       let a := err_cp_true Op X R w fs None None in
